@@ -19,6 +19,10 @@
      delivers, through its source MAC's recorded offer y, what is owed to y (with the owed offline siblings of
      y first when y is IPv4), carrying y's tracked online flag.  The record of the offer lives exactly as
      long as the MAC is tracked: a MAC that loses its last address (purge, re-binding) loses the offer.
+   * learned names: an announcement (Update*Name, DHCPv4Update) carries the four attributes Name, Model, OS,
+     Manufacturer, each possibly empty.  What is learned about the address is, attribute by attribute, the
+     announced value where it is not empty and the previous value otherwise ([learn]); the announcement CHANGES
+     the learned names iff the result differs from what was known ([learns]); an identical repeat changes nothing.
    * name update of a tracked address that changes the learned name: one further notification is OWED to
      that address.  It is delivered with the next notification about the address: its next frame (repeat
      traffic then is not quiet), its return from offline, its ageing, or -- when the address is offline --
@@ -33,8 +37,8 @@ Open Scope N_scope.
 Inductive unit6 : Set :=
 | UFrame (f : fsum) (now : Z)
 | UPurge (now : Z)
-| UName (kd : nkind) (k : ip) (name : N)
-| UUpdate (m : mac) (k : ip) (name : N) (now : Z)     (* DHCPv4Update *)
+| UName (kd : nkind) (k : ip) (name : nent)
+| UUpdate (m : mac) (k : ip) (name : nent) (now : Z)     (* DHCPv4Update *)
 | UOffer (m : mac) (k : ip)                           (* SetDHCPv4IPOffer *)
 | UOther.
 
@@ -71,9 +75,18 @@ Definition sibling_due (a a' : amap) (owed : list ip) (m : mac) (k x : ip) : boo
 Definition created (a : amap) (m : mac) (k : ip) : bool :=
   match a k with Some e => negb (a_mac e =? m) | None => true end.
 
-Definition name_changes (r : rstate) (kd : nkind) (k : ip) (name : N) : bool :=
+(* ---- what an announcement teaches: written independently of the model's [merge] (linked by [merge_learn]) ---- *)
+Definition pick (old new : N) : N := if new =? 0 then old else new.
+Definition learn (old new : nent) : nent :=
+  {| ne_name := pick (ne_name old) (ne_name new); ne_model := pick (ne_model old) (ne_model new);
+     ne_os := pick (ne_os old) (ne_os new); ne_manuf := pick (ne_manuf old) (ne_manuf new) |}.
+Definition nent_eqb (a b : nent) : bool :=
+  (ne_name a =? ne_name b) && (ne_model a =? ne_model b) && (ne_os a =? ne_os b) && (ne_manuf a =? ne_manuf b).
+Definition learns (old new : nent) : bool := negb (nent_eqb (learn old new) old).
+
+Definition name_changes (r : rstate) (kd : nkind) (k : ip) (name : nent) : bool :=
   match r_map r k with
-  | Some _ => snd (merge (nget kd (r_names r k)) name)
+  | Some _ => learns (nget kd (r_names r k)) name
   | None => false
   end.
 
@@ -101,7 +114,7 @@ Definition dhcp_sib (a : amap) (owed : list ip) (y x : ip) : bool :=
 
 (* DHCPv4Update(m, k, name): what the sighting without frame makes owed *)
 Definition upd_base (r : rstate) (m : mac) (k : ip) : names := if created (r_map r) m k then names0 else r_names r k.
-Definition upd_changed (r : rstate) (m : mac) (k : ip) (name : N) : bool := snd (merge (n_dhcp (upd_base r m k)) name).
+Definition upd_changed (r : rstate) (m : mac) (k : ip) (name : nent) : bool := learns (n_dhcp (upd_base r m k)) name.
 
 (* ---- per address: the notifications about address x that unit u owes (the "due changes") ---- *)
 Definition due (c : cfg) (r : rstate) (u : unit6) (x : ip) : list (ip * bool) :=
@@ -156,7 +169,7 @@ Definition rnext (c : cfg) (r : rstate) (u : unit6) : rstate :=
   | UName kd k name =>
       if name_changes r kd k name
       then {| r_map := r_map r; r_owed := k :: r_owed r;
-              r_names := fun x => if ip_eqb x k then nset kd name (r_names r k) else r_names r x;
+              r_names := fun x => if ip_eqb x k then nset kd (learn (nget kd (r_names r k)) name) (r_names r k) else r_names r x;
               r_offer := r_offer r; r_dom := r_dom r |}
       else r
   | UUpdate m k name now =>
@@ -168,7 +181,7 @@ Definition rnext (c : cfg) (r : rstate) (u : unit6) : rstate :=
         {| r_map := a';
            r_owed := (if negb (currentb a m k) || upd_changed r m k name then [k] else []) ++
                      filter (fun x => negb (ip_eqb x k) && flipb a a' x) dom' ++ r_owed r;
-           r_names := fun x => if ip_eqb x k then (if upd_changed r m k name then nset KDhcp name base else base)
+           r_names := fun x => if ip_eqb x k then (if upd_changed r m k name then nset KDhcp (learn (n_dhcp base) name) base else base)
                                else r_names r x;
            r_offer := set_offer_of (offers_after a a' dom' (r_offer r)) m k;
            r_dom := dom' |}
